@@ -607,6 +607,9 @@ func c19GenPooled(g *Gen) {
 			if th == 0 {
 				pad = 60
 			}
+			if len(kf) == 1 {
+				c19PoolQueue(g, c19PoolAlternating(kf, th, pad, 2, []int{0, 1}))
+			}
 			c19PoolQueue(g, c19PoolAlternating(kf, th, pad, 4, []int{0, 1, 0, 3}))
 			if g.Thorough() {
 				c19PoolQueue(g, c19PoolAlternating(kf, th, pad+17, 7, []int{2, 0, 1}))
